@@ -412,18 +412,27 @@ func runRedef(c *Ctx) {
 
 	// ---------------- R5: the generated function forwards to the original
 	{
-		var body *ssa.Function
-		for _, ci := range core.Calls(redefine, "reflect.MakeFunc") {
-			if mc, ok := ci.Common().Args[1].(*ssa.MakeClosure); ok {
-				body = mc.Fn.(*ssa.Function)
-			}
-		}
+		body := p.GeneratedBody()
 		call := p.MustRole("Call")
 		if body == nil || call == nil {
 			c.R.Undecided("REDEF-R5", "Redefine|body", "Redefine", posOf(p, redefine), "generated function body not found")
 			return
 		}
 		c.R.Func(core.FuncName(body))
+		// capturedIs: v (inside the generated body) is the captured copy of Redefine's parameter i — directly, or through
+		// the parameters of the private helper that builds the body
+		capturedIs := func(v ssa.Value, i int) bool {
+			want := ssa.Value(redefine.Params[i])
+			if d := p.DerefFree(v); d != nil && p.Bind(core.Strip(d)) == want {
+				return true
+			}
+			if fv, ok := v.(*ssa.FreeVar); ok {
+				if b := p.Binding(fv); b != nil && p.Bind(core.Strip(b)) == want {
+					return true
+				}
+			}
+			return false
+		}
 		var cc *ssa.Call
 		for _, ci := range core.Calls(body) {
 			if ci.Common().StaticCallee() == call {
@@ -434,12 +443,7 @@ func runRedef(c *Ctx) {
 			c.R.Add("REDEF-R5", "generated|calls-original", core.FuncName(body), p.Pos(body.Pos()), false, "the generated function calls the original function", "no Call")
 			return
 		}
-		recvOK := false
-		if d := p.DerefFree(cc.Common().Args[0]); d != nil && d == ssa.Value(redefine.Params[0]) {
-			recvOK = true
-		} else if fv, ok := cc.Common().Args[0].(*ssa.FreeVar); ok && p.Binding(fv) == ssa.Value(redefine.Params[0]) {
-			recvOK = true
-		}
+		recvOK := capturedIs(cc.Common().Args[0], 0)
 		c.R.Add("REDEF-R5", "generated|calls-original", core.FuncName(body), p.InstrPos(cc), recvOK, "the generated function calls Call on the original function", fmt.Sprintf("ok=%v", recvOK))
 		// arguments: a private copy of the original options followed by one Named/Typed per declared input
 		args := cc.Common().Args[1]
@@ -462,12 +466,7 @@ func runRedef(c *Ctx) {
 					// append(nil-or-fresh, opts...) : a private copy of the captured options
 					if len(x.Common().Args) == 2 {
 						src := x.Common().Args[1]
-						isOpts := false
-						if d := p.DerefFree(src); d != nil && d == ssa.Value(redefine.Params[1]) {
-							isOpts = true
-						} else if fv, ok := src.(*ssa.FreeVar); ok && p.Binding(fv) == ssa.Value(redefine.Params[1]) {
-							isOpts = true
-						}
+						isOpts := capturedIs(src, 1)
 						if isOpts && (core.IsNilConst(x.Common().Args[0]) || p.FreshIn(x.Common().Args[0])) {
 							hasOpts, private = true, true
 						}
@@ -487,9 +486,7 @@ func runRedef(c *Ctx) {
 				private = true
 				core.Instrs(body, func(in ssa.Instruction) {
 					if cl, ok := in.(*ssa.Call); ok && core.CalleeName(cl.Common()) == "builtin.copy" && cl.Common().Args[0] == ssa.Value(x) {
-						if d := p.DerefFree(cl.Common().Args[1]); d != nil && d == ssa.Value(redefine.Params[1]) {
-							hasOpts = true
-						} else if fv, ok := cl.Common().Args[1].(*ssa.FreeVar); ok && p.Binding(fv) == ssa.Value(redefine.Params[1]) {
+						if capturedIs(cl.Common().Args[1], 1) {
 							hasOpts = true
 						}
 					}
